@@ -548,6 +548,9 @@ static const struct seqs SEQS[] = {
     /* shape parameters so small that both gamma variates underflow */
     { "std_beta(0.001,0.001)", 25, 0.001, 0.001, 0, 0, S_UNIT }, { "std_beta(0.001,3)", 25, 0.001, 3, 0, 0, S_UNIT },
     { "gamma(0.001,1)", 26, 0.001, 1, 0, 0, S_NONNEG },
+    /* parameters at the large end: thousands of stages, shapes and trials */
+    { "erlang(2000,0.5)", 6, 2000, 0.5, 0, 0, S_NONNEG }, { "gamma(10000,1)", 9, 10000, 1, 0, 0, S_NONNEG },
+    { "binomial(1000,0.5)", 20, 1000, 0.5, 0, 0, S_COUNT_LE_N }, { "poisson(300)", 22, 300, 0, 0, 0, S_COUNT },
 };
 #define NSEQS ((int)(sizeof SEQS / sizeof SEQS[0]))
 
